@@ -53,6 +53,7 @@ fn nontrivial(prop: &str, r: &RunResult) -> bool {
         "C01" => prefix("terminal.") > 0,
         "C02" => c("quiescent") > 0 && prefix("terminal.") > 0,
         "C03" => c("dep.tasks_with_deps") > 0,
+        "C04" => c("ledger.open_executions_checked") > 0,
         "C05" => c("placement.checked") > 0,
         "C06" => c("retract.sent") > 0 || c("reexecution") > 0,
         "C07" => c("loss.with_running") > 0,
